@@ -247,14 +247,18 @@ def summ(p):
             if lhs.startswith('__') or 'write_set' in lhs or '_car' in lhs or 'car_set' in lhs or lhs.startswith('return_value') or 'goto_symex' in lhs or 'tmp_' in lhs:
                 continue
             fn = (st.get('sourceLocation') or {}).get('function') or ''
-            if fn.startswith('__CPROVER') or fn in ('malloc', 'free'):
+            # objects allocated by is_fresh get their (nondeterministic) contents inside the contracts library: keep those, drop the rest of the library
+            if (fn.startswith('__CPROVER') or fn in ('malloc', 'free')) and not lhs.startswith('dynamic_object'):
+                continue
+            # havocked lookup tables (thousands of entries) are not inputs of a native replay: the real tables are used there
+            if re.match(r'(BitBoard_\w+Table|BitBoard_epMask|BitUtil_\w+Table)\b', lhs):
                 continue
             v = st.get('value', {})
             val = v.get('data', v.get('name')) if isinstance(v, dict) else v
             if val is None:
                 continue
             inputs.append([lhs, str(val)])
-            if len(inputs) >= 400:
+            if len(inputs) >= 4000:
                 break
         d['inputs'] = inputs
     return d
